@@ -124,7 +124,8 @@ func hasGlobalVarAssignInInitFunc(spec *ast.ValueSpec, initFuncDecls []*ast.Func
 // Returns a producer in the cases: 1) func call 2) literal nil 3) another global var 4) struct field/method.
 // In all other cases, it returns nil.
 func getGlobalProducer(pass *analysishelper.EnhancedPass, valspec *ast.ValueSpec, lid int, rid int) *annotation.ProduceTrigger {
-	switch rhs := valspec.Values[rid].(type) {
+	// The initializer may be parenthesized, e.g., `var g *int = (nil)`.
+	switch rhs := ast.Unparen(valspec.Values[rid]).(type) {
 	case *ast.CallExpr:
 		if ident, ok := rhs.Fun.(*ast.Ident); ok {
 			// We assume builtin functions do not return nil.
